@@ -562,6 +562,20 @@ def rewrite_for_header(pat, expr, idx, spec):
         seq = m.group(1)
         return (f"let mut {idx}: usize = 0;", f"{idx} + 1 < {seq}.len()",
                 f"let {pat} = [{seq}[{idx}], {seq}[{idx} + 1]];", 'R2 windows(2)')
+    m = re.fullmatch(r'(' + PATH + r')\.(chunks|chunks_exact)\((\w+)\)', e)
+    if m:
+        # R2c: the definition of slice::chunks / chunks_exact — consecutive sub-slices of N elements; `chunks` hands out the
+        # shorter remainder as a last chunk, `chunks_exact` leaves it out
+        seq, kind, n = m.group(1), m.group(2), m.group(3)
+        if not re.fullmatch(r'\w+', pat):
+            raise ExtractError(f"R2c: unsupported chunks pattern {pat!r}")
+        sl = seq if spec.get('chunks_of') == 'slice' else f"{seq}.as_slice()"
+        spec['_step'] = f"{idx} = {idx} + {pat}.len();"
+        if kind == 'chunks':
+            return (f"let mut {idx}: usize = 0;", f"{idx} < {seq}.len()",
+                    f"let {pat} = vstd::slice::slice_subrange({sl}, {idx}, if {seq}.len() - {idx} < {n} {{ {seq}.len() }} else {{ {idx} + {n} }});", f'R2c {kind}({n})')
+        return (f"let mut {idx}: usize = 0;", f"{seq}.len() - {idx} >= {n}",
+                f"let {pat} = vstd::slice::slice_subrange({sl}, {idx}, {idx} + {n});", f'R2c {kind}({n})')
     m = re.fullmatch(r'(' + PATH + r')\.iter\(\)\.enumerate\(\)', e)
     if m:
         seq = m.group(1)
@@ -652,7 +666,8 @@ def splice_loops(body, loopspecs, log):
                     raise ExtractError(f"R2m: a write through the mutable iterator remains in the loop body of `for {pat} in {expr.strip()}`")
                 log.append(f"{rule}: `for {pat} in {expr.strip()}` -> index loop on `{idx}` (increment at top, so `continue` is preserved)")
                 new = f"{label}while {cond}" + ('\n' + clauses + '\n' + indent if clauses else ' ') + '{'
-                bindings = f"\n{ind2}{bindings}\n{ind2}{idx} += 1;" if bindings else f"\n{ind2}{idx} += 1;"
+                step = spec.pop('_step', f"{idx} += 1;")
+                bindings = f"\n{ind2}{bindings}\n{ind2}{step}" if bindings else f"\n{ind2}{step}"
         else:
             prelude = ''
             bindings = ''
